@@ -10,7 +10,10 @@ RULE = ("one run = one seeded scenario over a small-domain program (product of r
         "system unsatisfiable / both solve_fail_debug settings / many random states; satisfiability "
         "decided by exhaustive enumeration in the reference; pin-probes of reference-feasible "
         "points must be accepted. Non-trivial = at least one call judged SAT and returned, or "
-        "judged UNSAT; distinct = (program shape, op 3-gram set).")
+        "judged UNSAT; distinct = (program shape, op 3-gram set). A share of the runs ('rsz') uses "
+        "programs with random-size lists, too large to enumerate: there a sampled witness (random "
+        "assignments incl. list lengths, checked by the reference) proves satisfiability and a "
+        "SolveFailure with a witness is the violation; no witness found decides nothing.")
 REAL = ["pyvsc (all of src/vsc)", "PyBoolector solver", "Python random (RandState)"]
 STUB = ["user code (generated)", "stdout (sink)"]
 ASSUMPTIONS = ["reference enumerator + evaluator (DESIGN 3.1) decide satisfiability exactly on the "
